@@ -307,9 +307,13 @@ class Func:
 			if len(pl) == 1:
 				self.vars.setdefault(pl[0], nm)
 		self.upvars = {}
+		self.upvar_list = []
 		for nm, pl in js['vars']:
 			if len(pl) > 1:
 				self.upvars[json.dumps(pl)] = nm
+				self.upvar_list.append((pl, nm))
+		# longest places first (by-ref captures have a trailing deref)
+		self.upvar_list.sort(key=lambda x: -len(x[0]))
 		self._succ = None
 		self._pred = None
 		self._defs = None
@@ -568,6 +572,13 @@ class Expr:
 		return ('unknown', 'rt')
 
 	def of_place(self, pl, depth=0, at=None):
+		# closure upvars: (*_1).N is the captured variable named in the debug info
+		if self.fu.upvar_list and len(pl) > 1:
+			for upl, nm in self.fu.upvar_list:
+				n = len(upl)
+				if pl[:n] == upl:
+					rest = pl[n:]
+					return self._proj(('local', -1, nm), rest)
 		base = self.of_local(pl[0], depth, at)
 		return self._proj(base, pl[1:])
 
@@ -1420,3 +1431,117 @@ def guarded_by_call(facts, rule, fn, acts, check_calls, kind, want_true=True, wh
 	if mode in ('both', 'fail-blocks'):
 		out += P4_fail_blocks(facts, rule, fu, ab, ds, want_true, what, min_decisions=max(min_decisions, 1))
 	return out
+
+
+# ----------------------------------------------------------------------------- comparison guards (P7)
+
+import re as _re
+
+class Guard:
+	"""one comparison statement with its normal form and its branch decision"""
+	def __init__(self, fu, c):
+		self.fu = fu
+		self.block, self.stmt, self.dest, self.op, self.a, self.b = c
+		self.nf = cmp_normal(self.op, self.a, self.b)
+		self.line = fu.blocks[self.block]['s'][self.stmt][0]
+		self._dec = None
+	@property
+	def decisions(self):
+		if self._dec is None:
+			self._dec, _ = decisions_on(self.fu, [(self.dest, 'bool', False)])
+		return self._dec
+	def oriented(self, pos_re):
+		"""normal form oriented so that the leaf matching pos_re has a positive coefficient"""
+		terms, op, K, used = self.nf
+		for v, c in terms.items():
+			if _re.search(pos_re, v):
+				if c < 0:
+					return ({x: -y for x, y in terms.items()}, _CMP_FLIP[op], -K, used)
+				return (terms, op, K, used)
+		return None
+	def text(self):
+		return cmp_str(self.nf)
+
+def guards_in(facts, fn, with_closures=True):
+	out = []
+	names = facts.family(fn) if with_closures else [facts.fn(fn)]
+	for n in names:
+		try:
+			fu = facts.func(n)
+		except AnchorMissing:
+			continue
+		for c in comparisons(fu):
+			out.append(Guard(fu, c))
+	return out
+
+def match_guards(guards, pos_re, neg_re=None, extra=0):
+	"""guards whose normal form has exactly: one +1 leaf matching pos_re, (one -1 leaf matching
+	neg_re if given), and `extra` further leaves"""
+	out = []
+	for g in guards:
+		o = g.oriented(pos_re)
+		if o is None:
+			continue
+		terms = o[0]
+		pos = [v for v, c in terms.items() if _re.search(pos_re, v) and c == 1]
+		if len(pos) != 1:
+			continue
+		rest = {v: c for v, c in terms.items() if v != pos[0]}
+		if neg_re is not None:
+			neg = [v for v, c in rest.items() if _re.search(neg_re, v) and c == -1]
+			if len(neg) != 1:
+				continue
+			del rest[neg[0]]
+		if len(rest) != extra:
+			continue
+		out.append((g, o))
+	return out
+
+def P7_guard(facts, rule, fn, label, pos_re, neg_re, want_op, want_K, count=1, with_closures=True, extra=0, true_reaches=None, true_avoids=None):
+	"""the function contains exactly `count` comparison(s) of the shape  pos - neg  <op>  K.
+	true_reaches: optional predicate(fu, block) -> bool; the comparison's true edge must reach
+	such a block and its false edge must not (ties the guard to the outcome it protects)."""
+	gs = guards_in(facts, fn, with_closures)
+	ms = match_guards(gs, pos_re, neg_re, extra)
+	key = '%s@%s' % (label, facts.fn(fn).rsplit('::', 1)[-1])
+	if len(ms) < count:
+		return [Result(rule, False, 'guard:' + key, '%s: expected %d comparison(s) relating %s and %s (%s), found %d; comparisons present: %s' % (
+			facts.fn(fn), count, pos_re, neg_re, label, len(ms), [g.text() for g in gs][:12]), len(gs), where=facts.where(facts.fn(fn)))]
+	out = []
+	for g, o in ms:
+		terms, op, K, used = o
+		ok = (op == want_op and K == want_K)
+		# accept the logically identical strict/non-strict twin:  x < K+1  ==  x <= K  (integers)
+		if not ok and {op, want_op} == {'Lt', 'Le'}:
+			ok = (op == 'Lt' and K == want_K + 1) or (op == 'Le' and K == want_K - 1)
+		if not ok and {op, want_op} == {'Gt', 'Ge'}:
+			ok = (op == 'Gt' and K == want_K - 1) or (op == 'Ge' and K == want_K + 1)
+		msg = '%s: %s is `%s` (expected %s %s %s)' % (g.fu.name.rsplit('::', 1)[-1], label, cmp_str(o), '+'.join(sorted(terms)), want_op, want_K)
+		if ok and true_reaches is not None:
+			ds = g.decisions
+			if not ds:
+				ok = False
+				msg += '; result is not branched on'
+			for d in ds:
+				tt = [e[1] for e in d.true_edges]
+				ft = [e[1] for e in d.false_edges]
+				pe = set(d.true_edges)
+				rt = g.fu.reach(tt)
+				rf = g.fu.reach(ft, removed_edges=pe)
+				if not any(true_reaches(g.fu, b) for b in rt):
+					ok = False
+					msg += '; true edge does not reach the expected outcome'
+				if any(true_reaches(g.fu, b) for b in rf):
+					ok = False
+					msg += '; expected outcome also reachable when the comparison is false'
+		out.append(Result(rule, ok, ('ok:' if ok else 'shape:') + key, msg, 1, where=facts.where(g.fu.name, g.line), detail={'normal_form': cmp_str(o), 'consts': sorted(used)}))
+	return out
+
+def constructs_pred(adt, variant):
+	def pred(fu, b):
+		for s in fu.blocks[b]['s']:
+			rv = s[2]
+			if rv[0] == 'agg' and rv[1] == 'adt' and norm(rv[2]).endswith(adt) and rv[3] == variant:
+				return True
+		return False
+	return pred
